@@ -481,3 +481,43 @@ def fixed_width(ctx):
     from .common_width import fixed_width as run
     run(ctx, ['keys:bip38_decrypt', 'keys:bip38_encrypt', 'keys:bip38_intermediate_password', 'keys:bip38_create_new_encrypted_wif'],
         'a seedb / factor that starts with a zero byte (1 in 256 keys) is hashed over fewer bytes: the right passphrase is refused (or another key is produced)', 8)
+
+
+@PROP.obligation('C15.presence-by-flag', canaries=[
+    mut.replace_expr('keys', 'bip38_decrypt', 'owner_entropy[4:]', "int.from_bytes(owner_entropy[4:], 'big')", 'lot / sequence 0 read as "no lot / sequence"', nth=0),
+])
+def presence_by_flag(ctx):
+    """Whether an EC-multiplied BIP38 key carries a lot / sequence number is decided by its flag byte. In the BIP38 functions no branch is
+    decided by the truthiness of an INTEGER decoded from the payload (`if lot_and_sequence:` on int.from_bytes(...)): the value 0 - lot 0,
+    sequence 0, valid per BIP38 - would then be treated as "absent" and the pass factor derived without the owner entropy."""
+    from ..dfa import ReachingDefs
+    n = 0
+    for q in ('keys:bip38_decrypt', 'keys:bip38_encrypt', 'keys:bip38_intermediate_password', 'keys:bip38_create_new_encrypted_wif'):
+        fn = ctx.repo.func(q)
+        names = []
+
+        def boolctx(e):
+            if isinstance(e, ast.Name):
+                names.append(e)
+            elif isinstance(e, ast.UnaryOp) and isinstance(e.op, ast.Not):
+                boolctx(e.operand)
+            elif isinstance(e, ast.BoolOp):
+                for v in e.values:
+                    boolctx(v)
+        for x in ast.walk(fn):
+            if isinstance(x, (ast.If, ast.IfExp, ast.While)):
+                boolctx(x.test)
+        if not names:
+            continue
+        rd = ReachingDefs(fn)
+        for nm in names:
+            nid = rd.node_of_ast(nm)
+            if nid is None:
+                continue
+            n += 1
+            for d in rd.reaching(nid, nm.id):
+                if d.value is not None and d.kind != 'aug' and isinstance(d.value, ast.Call) and norm(d.value.func) == 'int.from_bytes':
+                    ctx.violate(q, 'the branch `%s` (line %d) is decided by the truthiness of %s = %s: the value 0 counts as absent' % (nm.id, nm.lineno, nm.id, norm(d.value)[:70]), nm,
+                                'an EC-multiplied key with the lot/sequence flag and lot = 0, sequence = 0 is decrypted without the owner-entropy step: the right passphrase is refused')
+    ctx.saw('%d truthiness tests on local names in the BIP38 functions: none on an integer decoded from the payload' % n)
+    ctx.floor(n, 5, 'truthiness tests')
